@@ -168,8 +168,25 @@ fn c11(tier: &str, seed: u64) -> GridCheck {
     cfg.handler = 0.2;
     let count = if tier == "quick" { 480 } else { 4800 };
     c.progs = sample(seed, 0x1100, count, &cfg, &|i| Some(ALL12[i % 12]));
+    // a third of the sync programs run their branches through a custom joiner (sequential macros:
+    // lazy branches called in reverse order; thread-spawning macros: the handles passed through) -
+    // block operands are still evaluated before the step, not where the joiner runs the branch
+    for (i, p) in c.progs.iter_mut().enumerate() {
+        let k = p.kind();
+        if k.is_async || (i / 12) % 3 != 1 || p.branches.len() > 8 {
+            continue;
+        }
+        if k.is_spawn {
+            p.opts.joiner = Some("jv_join".to_string());
+            p.opts.order = vec![1];
+        } else {
+            p.opts.joiner = Some("jv_join_lazy".to_string());
+            p.opts.lazy = Some(true);
+            p.opts.order = vec![1, 3];
+        }
+    }
     c.budget = if tier == "quick" { 16 } else { 64 };
-    c.rule = "programs: random grid programs under all 12 macro names with block operands on every hoistable grid position (initial values, |> => ?> ?? -> <| <= !> operands, also inside nested wrappers), several per branch and step; oracle over the event log: the capture phase of each executed step (cap, snapshots, construction of the wrapped operand) happens exactly once, in branch-then-position order, after every event of earlier steps and before every other event of its own step. Non-trivial = a step with captures from two different branches".to_string();
+    c.rule = "programs: random grid programs under all 12 macro names with block operands on every hoistable grid position (initial values, |> => ?> ?? -> <| <= !> operands, also inside nested wrappers), several per branch and step; a third of the sync programs use a custom joiner (lazy branches called in reverse order / thread handles passed through); oracle over the event log: the capture phase of each executed step (cap, snapshots, construction of the wrapped operand) happens exactly once, in branch-then-position order, after every event of earlier steps and before every other event of its own step. Non-trivial = a step with captures from two different branches".to_string();
     c
 }
 
